@@ -28,7 +28,7 @@ ASSUMPTIONS = [
     'probe bodies accept any values, so -32602 can only come from binding',
     'only the pydantic extractor is judged (the default extractor documents nothing, the docstring extractor documents the docstring)',
 ]
-SHARDS = {'quick': 4, 'thorough': 16}
+SHARDS = {'quick': 8, 'thorough': 16}
 TIMEOUT = {'quick': 900, 'thorough': 3400}
 ANCHORS = [
     ('pjrpc/server/specs/extractors/pydantic.py', 'PydanticSchemaExtractor._build_params_model'),
@@ -39,7 +39,7 @@ ANCHORS = [
 ]
 FLOORS = {'*': {**{f'{k}:{w}': 10 for k in ('openapi', 'openrpc') for w in ('context', 'exclusion', 'keyword-only', 'view')},
                 'context:not-first': 20, 'context:positional': 10, 'subsets-dispatched': 3000, 'accepted': 300, 'refused': 1000,
-                'methods': 100, 'twin-registration': 30}}
+                'methods': 100, 'twin-registration': 30, 'exclusion:by-name': 30, 'exclusion:default-none': 30, 'exclusion:by-annotation': 30}}
 
 
 def render(params, ctx_at, ctx_name, skip, as_view):
@@ -67,7 +67,8 @@ def render(params, ctx_at, ctx_name, skip, as_view):
     if skip:
         if not star:
             parts.append('*')
-        parts.append("skip: str = 'skip-default'")
+        parts.append({'by-name': "skip: str = 'skip-default'", 'default-none': 'skip: str = None',
+                      'by-annotation': "skip: Injected = 'skip-default'"}[skip if isinstance(skip, str) else 'by-name'])
     return f"def f({', '.join(parts)}):\n    return 'ok'"
 
 
@@ -99,8 +100,18 @@ def run_method(ctx, params, ctx_at, positional, skip, style):
         ctx.skip('positional-context-must-be-first')
         return
     src = render(params, ctx_at, ctx_name, skip, as_view)
-    ns = {'ViewMixin': pjrpc.server.ViewMixin, '__name__': 'vmon_c17_programs'}
-    pred = (lambda name, ann, default: name == 'skip') if skip else None
+    class Injected(str):
+        """marker annotation of injected (excluded) parameters"""
+    ns = {'ViewMixin': pjrpc.server.ViewMixin, '__name__': 'vmon_c17_programs', 'Injected': Injected}
+    if skip is True:
+        skip = 'by-name'
+    pred = {None: None, False: None,
+            'by-name': lambda name, ann, default: name == 'skip',
+            # the predicate sees exactly what the signature holds: a parameter WITHOUT default has default == inspect.Parameter.empty
+            'default-none': lambda name, ann, default: default is None,
+            'by-annotation': lambda name, ann, default: ann is Injected}[skip]
+    if skip:
+        ctx.hit('exclusion:' + skip)
     validator = vbase.BaseValidator(exclude_param=pred)
     try:
         if as_view:
@@ -139,7 +150,7 @@ def run_method(ctx, params, ctx_at, positional, skip, style):
     universe = base_names + ['zz'] + ([ctx_name] if ctx_at is not None and not as_view else []) + (['skip'] if skip else [])
     for kind in ('openapi', 'openrpc'):
         fam = f'{kind}:{style}'
-        wit = dict(source=src, style=style, context_position=ctx_at, context_positional=positional, exclusion='by-name:skip' if skip else None,
+        wit = dict(source=src, style=style, context_position=ctx_at, context_positional=positional, exclusion=skip or None,
                    document=kind)
         cls0 = (src, style, positional, kind)
         if ctx_at is not None:
@@ -258,16 +269,19 @@ def signatures(max_params):
 def gen(ctx):
     deep = ctx.thorough
     full = True
-    sigs = signatures(4)
     if deep:
+        sigs = signatures(4)
         five = [s for s in signatures(5) if len(s) == 5]
         sigs = sigs + ctx.rng.sample(five, min(len(five), 60))
+    else:
+        four = [s for s in signatures(4) if len(s) == 4]
+        sigs = signatures(3) + ctx.rng.sample(four, 40)
     k = 0
     for ps in sigs:
         n = len(ps)
         ctx_options = [(None, False)] + [(at, False) for at in range(n + 1)] + [(0, True)]
         for ctx_at, positional in ctx_options:
-            for skip in (False, True):
+            for skip in (False, 'by-name', 'default-none', 'by-annotation'):
                 for style in ('def', 'view'):
                     k += 1
                     if style == 'view' and ctx_at not in (None, 0):
